@@ -1,0 +1,150 @@
+// Licensed to Apache Software Foundation (ASF) under one or more contributor
+// license agreements. See the NOTICE file distributed with
+// this work for additional information regarding copyright
+// ownership. Apache Software Foundation (ASF) licenses this file to you under
+// the Apache License, Version 2.0 (the "License"); you may
+// not use this file except in compliance with the License.
+// You may obtain a copy of the License at
+//
+//     http://www.apache.org/licenses/LICENSE-2.0
+//
+// Unless required by applicable law or agreed to in writing,
+// software distributed under the License is distributed on an
+// "AS IS" BASIS, WITHOUT WARRANTIES OR CONDITIONS OF ANY
+// KIND, either express or implied.  See the License for the
+// specific language governing permissions and limitations
+// under the License.
+
+//go:build verif
+
+// Contracts for the verification harness (comment-only; compiled only with -tags verif).
+// Syntax: see /verif/DESIGN.md §2.2.
+
+package convert
+
+//@ property C12
+//
+// ---- specification functions (taken from the property statement, not from the code) ----
+//
+//@ spec func be16(b []byte) uint16 = uint16(b[0])<<8 | uint16(b[1])
+//@ spec func be32(b []byte) uint32 = uint32(b[0])<<24 | uint32(b[1])<<16 | uint32(b[2])<<8 | uint32(b[3])
+//@ spec func be64(b []byte) uint64 = uint64(b[0])<<56 | uint64(b[1])<<48 | uint64(b[2])<<40 | uint64(b[3])<<32 |
+//@                                   uint64(b[4])<<24 | uint64(b[5])<<16 | uint64(b[6])<<8 | uint64(b[7])
+//
+// order-preserving images: signed integers flip the sign bit; floats flip the sign bit when it is clear and all
+// bits when it is set (the standard total-order trick).
+//@ spec func ienc64(i int64) uint64 = uint64(i) ^ (1<<63)
+//@ spec func idec64(u uint64) int64 = int64(u ^ (1<<63))
+//@ spec func ienc32(i int32) uint32 = uint32(i) ^ (1<<31)
+//@ spec func idec32(u uint32) int32 = int32(u ^ (1<<31))
+//@ spec func fenc(x uint64) uint64 = ite(x>>63 == 0, x ^ (1<<63), ^x)
+//@ spec func fdec(y uint64) uint64 = ite(y>>63 == 1, y ^ (1<<63), ^y)
+//
+// lexicographic "less" on two 8-byte (4-byte) strings, i.e. what bytes.Compare(p, q) < 0 means
+//@ spec func lexlt8(p []byte, q []byte) bool =
+//@      p[0] < q[0] || (p[0] == q[0] && (p[1] < q[1] || (p[1] == q[1] && (p[2] < q[2] || (p[2] == q[2] && (p[3] < q[3] || (p[3] == q[3] &&
+//@     (p[4] < q[4] || (p[4] == q[4] && (p[5] < q[5] || (p[5] == q[5] && (p[6] < q[6] || (p[6] == q[6] && p[7] < q[7])))))))))))))
+//@ spec func lexlt4(p []byte, q []byte) bool =
+//@      p[0] < q[0] || (p[0] == q[0] && (p[1] < q[1] || (p[1] == q[1] && (p[2] < q[2] || (p[2] == q[2] && p[3] < q[3])))))
+//
+// ---- lemmas: the images order like the values and are invertible ----
+//
+//@ lemma be64_is_lex(p []byte, q []byte)
+//@   mode bv
+//@   requires len(p) == 8 && len(q) == 8
+//@   ensures  lexlt8(p, q) == (be64(p) < be64(q))
+//@   ensures  (be64(p) == be64(q)) == (forall k :: 0 <= k && k < 8 ==> p[k] == q[k])
+//@ lemma be32_is_lex(p []byte, q []byte)
+//@   mode bv
+//@   requires len(p) == 4 && len(q) == 4
+//@   ensures  lexlt4(p, q) == (be32(p) < be32(q))
+//@ lemma ienc64_order(a int64, b int64)
+//@   mode bv
+//@   ensures (a < b) == (ienc64(a) < ienc64(b))
+//@   ensures idec64(ienc64(a)) == a
+//@   ensures (ienc64(a) == ienc64(b)) == (a == b)
+//@ lemma idec64_inverse(u uint64)
+//@   mode bv
+//@   ensures ienc64(idec64(u)) == u
+//@ lemma ienc32_order(a int32, b int32)
+//@   mode bv
+//@   ensures (a < b) == (ienc32(a) < ienc32(b))
+//@   ensures idec32(ienc32(a)) == a
+//@ lemma fenc_order(a float64, b float64)
+//@   mode bv
+//@   requires !isNaN(a) && !isNaN(b) && flt(a, b)
+//@   ensures  fenc(bits(a)) < fenc(bits(b))
+//@ lemma fenc_total(a float64, b float64)
+//@   mode bv
+//@   requires !isNaN(a) && !isNaN(b) && fenc(bits(a)) < fenc(bits(b))
+//@   ensures  fle(a, b)
+//@ lemma fenc_roundtrip(x uint64)
+//@   mode bv
+//@   ensures fdec(fenc(x)) == x
+//@   ensures fenc(fdec(x)) == x
+//
+// ---- functions ----
+//
+//@ func Uint64ToBytes
+//@   mode bv
+//@   ensures len8:  len(result) == 8 && fresh(result)
+//@   ensures value: be64(result) == u
+//@ func Uint32ToBytes
+//@   mode bv
+//@   ensures len4:  len(result) == 4 && fresh(result)
+//@   ensures value: be32(result) == u
+//@ func Int64ToBytes
+//@   mode bv
+//@   ensures len8:  len(result) == 8 && fresh(result)
+//@   ensures order: be64(result) == ienc64(i)
+//@ func Int32ToBytes
+//@   mode bv
+//@   ensures len4:  len(result) == 4 && fresh(result)
+//@   ensures order: be32(result) == ienc32(i)
+//@ func Int16ToBytes
+//@   mode bv
+//@   ensures len(result) == 2 && fresh(result)
+//@   ensures value: be16(result) == uint16(i)
+//@ func BytesToInt16
+//@   mode bv
+//@   requires len(b) >= 2
+//@   ensures  roundtrip: result == int16(be16(b))
+//@ func BytesToInt64
+//@   mode bv
+//@   requires len(b) >= 8
+//@   ensures  roundtrip: result == idec64(be64(b))
+//@ func BytesToInt32
+//@   mode bv
+//@   requires len(b) >= 4
+//@   ensures  roundtrip: result == idec32(be32(b))
+//@ func BytesToUint64
+//@   mode bv
+//@   requires len(b) >= 8
+//@   ensures  result == be64(b)
+//@ func BytesToUint32
+//@   mode bv
+//@   requires len(b) >= 4
+//@   ensures  result == be32(b)
+//@ func Float64ToBytes
+//@   mode bv
+//@   ensures len(result) == 8 && fresh(result)
+//@   ensures value: be64(result) == bits(f)
+//@ func BytesToFloat64
+//@   mode bv
+//@   requires len(b) >= 8
+//@   ensures  roundtrip: bits(result) == be64(b)
+//@ func Float64ToOrderedBytes
+//@   mode bv
+//@   ensures len8:  len(result) == 8 && fresh(result)
+//@   ensures order: be64(result) == fenc(bits(f))
+//@ func OrderedBytesToFloat64
+//@   mode bv
+//@   requires len(b) >= 8
+//@   ensures  roundtrip: bits(result) == fdec(be64(b))
+//@ func BoolToBytes
+//@   mode bv
+//@   ensures len(result) == 1 && fresh(result) && (result[0] != 0) == b
+//@ func BytesToBool
+//@   mode bv
+//@   ensures len(b) > 0 ==> result == (b[0] != 0)
+//@   ensures len(b) == 0 ==> !result
